@@ -9,8 +9,8 @@ CFG = dict(
          "string, an embedded NUL) on the real hashring.Ring with replicas in {1,2,3,5,8,100} and probes in {1,2,3,5}; hash = the "
          "ring's default (xxh3) or an adversarial low-entropy hash (constant, few boundary points incl. 0 and 2^64-1, small, high, "
          "salt-ignoring, key-ignoring, evenly spread); every 50th case is the production configuration of proxy_neigh_mgr.go "
-         "(xxh3, 100 replicas, 1 probe, value = key); every 50th case (index 3 mod 50) is a LARGE ring in that configuration: 11-40 "
-         "members (1100-4000 virtual nodes; xxh3, or a tie-heavy spread/high hash), Lookups also during the initial load, then 6-11 "
+         "(xxh3, 100 replicas, 1 probe, value = key); every 50th case (index 3 mod 50) is a LARGE ring in that configuration: 11-36 "
+         "members (1100-3600 virtual nodes; xxh3, or a tie-heavy spread/high hash), Lookups also during the initial load, then 5-9 "
          "batches of 0-3 removes and 0-3 inserts in random order with no Lookup inside a batch (remove+insert pairs, multi-member "
          "batches, remove-then-reinsert of the same member, re-join of an earlier removed member), each batch followed by 6-10 sampled "
          "addresses asked of the ring under test and of a fresh ring; its hash calls are handed over grouped by name; two cases in 50 (indices 13, 38 mod 50) run 3-7 REAL proxy-neighbour managers "
